@@ -41,20 +41,22 @@ impl AsyncOverlayFS {
         if path.is_empty() {
             return Ok(self.layers[0].clone());
         }
+        // an entry of the write layer is newer than any deletion marker of its path: a marker
+        // only hides what the lower layers hold
+        let write_path = self.write_path(path)?;
+        if write_path.exists().await? {
+            return Ok(write_path);
+        }
         if self.whiteout_path(path)?.exists().await? {
             return Err(VfsErrorKind::FileNotFound.into());
         }
-        for layer in &self.layers {
+        for layer in &self.layers[1..] {
             let layer_path = layer.join(&path[1..])?;
             if layer_path.exists().await? {
                 return Ok(layer_path);
             }
         }
-        let read_path = self.write_layer().join(&path[1..])?;
-        if !read_path.exists().await? {
-            return Err(VfsErrorKind::FileNotFound.into());
-        }
-        Ok(read_path)
+        Err(VfsErrorKind::FileNotFound.into())
     }
 
     fn write_path(&self, path: &str) -> VfsResult<AsyncVfsPath> {
@@ -194,14 +196,6 @@ impl AsyncFileSystem for AsyncOverlayFS {
     }
 
     async fn exists(&self, path: &str) -> VfsResult<bool> {
-        if self
-            .whiteout_path(path)
-            .map_err(|err| err.with_context(|| "whiteout_path"))?
-            .exists()
-            .await?
-        {
-            return Ok(false);
-        }
         match self.read_path(path).await {
             Ok(p) => p.exists().await,
             Err(err) => match err.kind() {
